@@ -4,8 +4,9 @@ import logging
 import string
 import struct
 
-THEOREMS = ["C08_header_len", "C08_record", "C08_oversize", "C08_oversize_list", "C08_framing",
-            "C08_norm_idem", "C08_norm_identity", "C08_raw", "C08_factory_idem"]
+THEOREMS = ["C08_header_len", "C08_record", "C08_oversize", "C08_oversize_list", "C08_framing", "C08_norm_idem",
+            "C08_norm_identity", "C08_raw", "C08_factory_idem", "C08_classLookup_idem", "C08_norm_idem_all",
+            "C08_factory_idem_all"]
 
 PRINTABLE = (string.ascii_letters + string.digits + string.punctuation + " ").replace(":", "")
 RESERVED = {("copc", 1), ("copc", 1000)}
